@@ -239,7 +239,9 @@ is no cycle of waiting inside the client. With a peer that does not drain, howev
 /-- the environment assumption "the peers read": no write can block -/
 def PeersDrain (s : State) : Prop := ∀ c, (s.conn c).canWrite = true
 
-/-- No deadlock inside the client. In every reachable state:
+/-- No deadlock inside the client. (Clauses 1, 2 and 5 are facts about `step` that hold in EVERY state — the caller
+actions are guarded by the caller's own pc, the mutex and the socket only; the content that needs reachability is in
+clauses 3 and 4, which rest on the invariants `Inv.w`, `Inv.w2`, `Inv.c`.) In every reachable state:
 (1) every call that has not returned either has an enabled action of its OWN goroutine that brings it strictly closer
 to returning, or it waits for `Connection.mu` of its connection, which is held by a goroutine inside a write, or it is
 itself inside a write that the peer blocks (live socket, peer not reading);
@@ -463,23 +465,26 @@ example :
        .deliver 0 (.answer 100 (.good 10)), .timeout 0, .unregister 0]).map (fun s => s.pc 0)
       = some (.returned .timeout) := by decide
 
-/-- the fairness hypotheses of `reconnect_live` are satisfiable: the execution in which nothing but `peerDrain 0`
-ever happens (every connection stays healthy) meets all six -/
-example : ∃ e : Exec (fun k => 100 + k) 2, SockDies e 0 ∧ WeakFair e (.reconnectOk 0) ∧ (∀ k, WeakFair e (.writeFail k)) ∧
-    WeakFair e (.pingDone 0) ∧ StrongFair e (.reconnectStart 0) ∧ StrongFair e (.pingFail 0) := by
-  have hstep : step (fun k => 100 + k) 2 init (.peerDrain 0) = some init := by
-    simp only [step, init, Option.some.injEq]
-    congr
-    funext j
-    simp only [set_apply]
-    split <;> rfl
-  refine ⟨⟨fun _ => init, fun _ => .peerDrain 0, fun _ => hstep, ⟨[], rfl⟩⟩, ?_, ?_, ?_, ?_, ?_, ?_⟩
-  · intro i; exact ⟨i, Nat.le_refl i, by simp [init]⟩
-  · intro i; exact ⟨i, Nat.le_refl i, Or.inl (by simp [step, init])⟩
-  · intro k i; exact ⟨i, Nat.le_refl i, Or.inl (by simp [step, init])⟩
-  · intro i; exact ⟨i, Nat.le_refl i, Or.inl (by simp [step, init])⟩
-  · intro h; obtain ⟨j, _, hj⟩ := h 0; simp [step, init] at hj
-  · intro h; obtain ⟨j, _, hj⟩ := h 0; simp [step, init] at hj
+/-- the fairness hypotheses of `reconnect_live` are satisfiable by an execution with REAL drops: in `cycExec` the server
+closes connection 0 over and over (connDrop → sockDead → pingFail → reconnectStart → reconnectOk, for ever); it meets all
+six hypotheses — both strong-fairness premises are true, the actions are enabled and taken infinitely often —, the
+connection is unhealthy infinitely often, and `reconnect_live` gives: healthy infinitely often. -/
+example : ∀ i, ∃ j, i ≤ j ∧ Healthy (((cycExec (fun k => 100 + k)).st j).conn 0) := by
+  obtain ⟨h1, h2, h3, h4, h5, h6, _⟩ := cycExec_fair (fun k => 100 + k)
+  exact reconnect_live (fun k => 100 + k) 1 (cycExec (fun k => 100 + k)) 0 h1 h2 h3 h4 h5 h6
+
+example : (∀ i, ∃ j, i ≤ j ∧ (cycExec (fun k => 100 + k)).lab j = .connDrop 0) ∧
+    (∀ i, ∃ j, i ≤ j ∧ ¬ Healthy (((cycExec (fun k => 100 + k)).st j).conn 0)) :=
+  ⟨(cycExec_fair _).2.2.2.2.2.2.1, (cycExec_fair _).2.2.2.2.2.2.2.1⟩
+
+/-- one full cycle on a finite run: the server drops the connection, the socket dies, a ping fails, the spawned
+reconnect runs and succeeds, and a call issued afterwards is answered -/
+example :
+    (run (fun k => 100 + k) 1 init
+      [.connDrop 0, .sockDead 0, .pingFail 0, .reconnectStart 0, .reconnectOk 0,
+       .register 0, .pickConn 0, .sendBegin 0, .writeDone 0, .deliver 0 (.answer 100 (.good 10)), .chanSend 0,
+       .recv 0, .unregister 0]).map (fun s => (s.pc 0, (s.conn 0).status, (s.conn 0).reader))
+      = some (.returned (.ok 10), .connected, true) := by decide
 
 example : IdsDistinct (fun k => 100 + k) := by intro a b h; simpa using h
 
